@@ -717,7 +717,10 @@ class Path(PathDeprecations):
                     return input_file.read()
         else:
             with open(self._absolute, mode) as input_file:
-                return input_file.read()
+                try:
+                    return input_file.read()
+                except UnicodeDecodeError as ex:
+                    raise PathError(f"Unable to decode the contents of {self._absolute!r}: {ex}") from ex
 
     @contextmanager
     def open(self, mode: str = "r") -> Iterator[IO]:
